@@ -48,6 +48,9 @@ def parseInj (t : String) : Option (Bool × InjKind) :=
   let (cancel, body) := match t.toList with
     | 'x' :: rest => (true, String.ofList rest)
     | _ => (false, t)
+  -- `hconn:a`: the connect of attempt `a` is the real transport's dial to a peer that never answers; the dial is
+  -- bounded by the Subscribe context, so the scenario is that of `conn:a`
+  let body := if body.startsWith "hconn:" then (body.drop 1).toString else body
   let k : Option InjKind := match body.splitOn ":" with
     | ["pre"] => some .pre
     | ["end"] => some .fin
